@@ -8,6 +8,7 @@ import numpy as np
 
 import gen
 import streams_common as sc
+from props import e2e
 import sut
 from engine import Outcome, jsonable
 from ioos_qc.results import collect_results
@@ -195,3 +196,7 @@ def run(out: Outcome, drv):
         if not a["holds"] or nd != len(obs):
             out.violation(f"{WHAT}: collected (how={form}) {obs} (dict form: {nd} results) but the healthy tests alone yield {a['model']}",
                           {"case": jsonable(case), "observed": obs, "entries": entries, "model": a["model"]})
+    # complete real runs containing entries that cannot run, against the one model value IoosQc.systemRun (props/e2e.py):
+    # the model binds and runs every entry itself (absent stream, missing depth / position input, rejected parameters,
+    # raising callee all contribute nothing there — theorem C18_sys_drop_failing)
+    e2e.run(out, drv, n=25 if out.tier == "quick" else 400, maxn=9 if out.tier == "quick" else 20, faults=True, tag="e2e")
